@@ -32,6 +32,8 @@ var c11Epochs = []time.Time{ //nolint:gochecknoglobals
 	time.Unix(0, 1<<63-1).Add(-9 * time.Second),
 	time.Unix(0, -1<<63).Add(-6 * time.Second),
 	time.Date(1, 1, 1, 0, 0, 0, 0, time.UTC),
+	time.Time{}.Add(-5 * time.Second), // the clock reads exactly the zero time.Time (a fake clock's zero value) when the request is started
+	time.Time{}.Add(-5*time.Second - 1),
 	time.Date(2500, 6, 1, 0, 0, 0, 0, time.UTC),
 	time.Unix(0, 0).Add(-5 * time.Second),
 	time.Date(1969, 12, 31, 23, 59, 50, 0, time.UTC),
@@ -104,6 +106,11 @@ func c11WalkAt(c *core.Ctx, size int, rto time.Duration, noRetransmit bool, inte
 		return true
 	}
 	if !check("after Start") {
+		return
+	}
+	// a collector tick while the clock still shows the instant of Start: nothing is due
+	r.tickAt(r.w.VNow())
+	if !check("after a tick at the instant of Start") {
 		return
 	}
 	last := r.w.VNow() // time of the latest transmission
